@@ -6,6 +6,9 @@
 (* p0/p1/p3/generating theta, ll0c/ll2/llgc on c*d at the defaults/p2/ScaleMap(theta)    *)
 (* (the latter vector was computed by TLC and travelled through the case).  -inf is      *)
 (* clamped to -2*10^9.  Parameters micro; fin* = all returned parameters finite.         *)
+(* Records of FitLawsCases.tla / FitLawsSmall.tla carry the same fields (no history: the  *)
+(* bit patterns are empty, kfix = 0); for FitLawsSmall the fit of c*d (c = 20) starts at   *)
+(* ScaleMap(start) instead of the defaults and ll0c is the likelihood of c*d there.        *)
 EXTENDS FitLawsOps, Json, IOUtils, TLC
 
 TraceLog == ndJsonDeserialize(IOEnv.TRACE_FILE)
